@@ -146,6 +146,7 @@ func c20(tier string) []*explore.Scenario {
 		out = append(out, c20Stats(nsh, 0))
 	}
 	out = append(out, c20Stats(2, 1))
+	out = append(out, c20AfterClose(1, 1), c20AfterClose(2, 0))
 	out = append(out, fineGrained(c20Stats(2, 1))...)
 	return out
 }
@@ -917,6 +918,71 @@ func c20OpenDoubleFault(readErr string, writeFails bool) *explore.Scenario {
 				vsched.Fail(fam+"|harness", "the RPC did not fail: %s", r.Summary())
 			}
 			sh.check(fam, "client", 1, func(i int) (bool, bool) { return false, true })
+		},
+	}
+}
+
+// c20AfterClose: the application calls ClientConn.Close (once or twice) while a unary call is in flight and goes on
+// using the connection afterwards (Close only reports the end of the connection to the stats handlers; the transport
+// was never the ClientConn's): every RPC - the one in flight and the later ones - still has its Begin and its End.
+func c20AfterClose(closes, bound int) *explore.Scenario {
+	fam := "C20/stats"
+	return &explore.Scenario{
+		Name: fmt.Sprintf("C20/stats/after-close/closes=%d/d=%d", closes, bound), Family: fam, Prop: "C20", Bound: bound,
+		Run: func() {
+			sh := newC20SH("c0")
+			w := env.NewWorld()
+			d := env.NewDirect(w, env.DirectOpts{Pipe: env.PipeOpts{Cap: 64}, DialOpts: []goat.DialOption{goat.WithStatsHandler(sh)}})
+			vsched.Settle()
+			vsched.Explore(bound > 0)
+			release := make(chan struct{})
+			a, b, st := w.Rec("a", "Unary"), w.Rec("b", "Unary"), w.Rec("st", "Bidi")
+			w.Unaries["a"] = func(r *env.Rec, ctx context.Context, in string) (string, error) {
+				<-release
+				return "R:" + in, nil
+			}
+			vsched.GoNamed("caller-a", func() { w.CallUnary(d.CC, context.Background(), a, "x") })
+			vsched.Quiesce()
+			for i := 0; i < closes; i++ {
+				d.CC.Close()
+			}
+			close(release)
+			vsched.Quiesce()
+			vsched.GoNamed("caller-b", func() { w.CallUnary(d.CC, context.Background(), b, "y") })
+			vsched.GoNamed("caller-st", func() { streamCase{"Bidi", "pingpong", "echo", 1, 0, 0}.runCaller(w, d.CC, context.Background(), st) })
+			vsched.Quiesce()
+			checkUnary(a, "x", fam)
+			ok := map[int]bool{0: true}
+			n := 1
+			// calls after Close may be refused or served: whichever, what the stats handlers see of them is complete
+			for _, r := range []*env.Rec{b, st} {
+				if !r.CDone {
+					vsched.Fail(fam+"|hang", "call %s made after Close never returned", r.Tag)
+				}
+			}
+			_ = ok
+			for tag := 1; tag <= sh.next; tag++ {
+				ev := sh.events[tag]
+				begins, ends := 0, 0
+				for _, e := range ev {
+					if e == "Begin" {
+						begins++
+					}
+					if strings.HasPrefix(e, "End") {
+						ends++
+					}
+				}
+				if len(ev) > 0 && (begins != 1 || ends != 1) {
+					vsched.Fail(fam+"|end-count", "client stats handler, RPC %d (%s), Close called %d times with the first call in flight: %d Begin and %d End events: %v", tag, sh.methods[tag], closes, begins, ends, ev)
+				}
+				n++
+			}
+			if (b.CErr == nil || st.COpenErr == nil) && sh.next < 2 {
+				vsched.Fail(fam+"|rpc-count", "calls made after Close were served but the stats handler was never asked to tag them (saw %d RPCs)", sh.next)
+			}
+			d.Pipe.A.Break()
+			d.Pipe.B.Break()
+			vsched.Quiesce()
 		},
 	}
 }
